@@ -4,6 +4,7 @@ package wm
 
 import (
 	"fmt"
+	"os"
 
 	"verifsim/internal/api"
 	"verifsim/internal/core"
@@ -164,6 +165,21 @@ func judgeCycles(w *check, c *core.Case) (string, string, runStats) {
 		if err == nil && core.Compare(ref2, o2).OK() {
 			st.pairs = 1
 			if o2.Cycles != out.Cycles {
+				if os.Getenv("VERIF_DEBUG_C12") != "" {
+					for r := isa.Reg(1); r < isa.NumRegs; r++ {
+						if s2.Regs[r] != c.Init.Regs[r] {
+							fmt.Fprintf(os.Stderr, "reg %s: %d -> %d\n", r, c.Init.Regs[r], s2.Regs[r])
+						}
+					}
+					nd := 0
+					for i := range s2.Mem {
+						if s2.Mem[i] != c.Init.Mem[i] {
+							nd++
+						}
+					}
+					fmt.Fprintf(os.Stderr, "memory bytes changed: %d\n", nd)
+				}
+				st.verdict = &core.Verdict{Class: "value-dependent-cycles", Any: true}
 				return "value-dependent-cycles", fmt.Sprintf("same executed path and addresses, other data values: %d vs %d cycles", out.Cycles, o2.Cycles), st
 			}
 		}
